@@ -46,6 +46,7 @@ REVERT_EXPECT = {
  "list AGPL-1.0-only": ["C08", "C11"],
  "add CECILL-2.1": ["C11"],
  "add EUPL-1.2": ["C11"],
+ "do not accept '+' on an id that is on no SPDX list": ["C05"],
 }
 for line in log:
     sha, subj = line.split(" ", 1)
